@@ -426,6 +426,39 @@ pub fn gen_job_b(tier: Tier) -> Vec<El> {
             }
         }
     }
+    // bind / un-bind / re-bind chains on one prefix over 3 and 4 levels
+    let choices: [Option<&'static str>; 4] = [None, Some("u1"), Some("u2"), Some("")];
+    for target in [None, Some("p")] {
+        for depth in [3usize, 4] {
+            let total = choices.len().pow(depth as u32);
+            for code in 0..total {
+                let mut c = code;
+                let mut levels = vec![];
+                for _ in 0..depth {
+                    levels.push(choices[c % 4]);
+                    c /= 4;
+                }
+                for (ep, el) in [(None, "a"), (Some("p"), "a")] {
+                    // build from the innermost level outwards
+                    let mut node: Option<El> = None;
+                    for (li, ch) in levels.iter().enumerate().rev() {
+                        let mut items = vec![];
+                        if let Some(v) = ch {
+                            items.push(Item::Decl(target, v));
+                        }
+                        items.push(Item::Attr(Some("p"), "k", "1"));
+                        let mut children = vec![];
+                        if let Some(n) = node.take() {
+                            children.push(Node::El(n));
+                        }
+                        children.push(probes()[li % 2].clone());
+                        node = Some(El { prefix: ep, local: el, items, children, form: 0 });
+                    }
+                    out.push(node.unwrap());
+                }
+            }
+        }
+    }
     out
 }
 
